@@ -314,6 +314,10 @@ class ExprMixin:
                     r = r * x
             else:
                 raise Unsupported('integer power with symbolic exponent')
+        elif op in (ast.BitAnd, ast.BitOr, ast.BitXor, ast.LShift, ast.RShift):
+            f = z3.Function('bit_' + op.__name__.lower(), IntS, IntS, IntS)
+            self.notes.add('bit operation %s modelled as an uninterpreted function' % op.__name__)
+            return f(x, y)
         else:
             raise Unsupported('integer operator %s' % op.__name__)
         if self.lang == 'c' and not self.spec_mode:
